@@ -55,6 +55,7 @@ structure Seq where
 
 def step (q : Seq) (toks : List String) : IO (Seq × Bool) := do
   match toks with
+  | ["selfcheck"] => IO.println (if scenariosConsistent then "ok" else "scenario tables differ"); return (q, false)
   | ["list"] => IO.println (" ".intercalate (scenarios.map (·.1))); return (q, false)
   | ["dump", name] =>
     match findScenario name with
